@@ -17,13 +17,14 @@ from . import status_common as ST
 ID = 'C12'
 LEVEL = 'model_checking'
 RULE = ('every interleaving of the keyboard thread with the generation loop at the scheduling points listed in pcfgmc/sched.py, with at most B preemptions '
-        '(sleep() is a free yield), for every input() script of the alphabet {"", h, q, EOF, ERR, BLOCK, S!} up to length 2 (3 in thorough), for a fresh session and for a session '
+        '(sleep() is a free yield), for every input() script of the alphabet {"", h, q, EOF, ERR, BLOCK, S!k (stderr fails at the k-th write of the status report)} up to length 2 (3 in thorough), for a fresh session and for a session '
         'resumed inside a Markov level; every execution runs to completion; oracle: without a write of should_exit the stream is the complete uninterrupted stream; '
         'executions are grouped by the quit moment (main-loop position at the write): within a group stdout and saved files are identical, the cut is a pre-terminal boundary or between '
         'two Markov guesses, and resuming from the saved files completes the stream (nothing of the uninterrupted stream is missing from quit run + resumed run); states = scheduling points visited, transitions = scheduler decisions; '
         'clock layer (sequential): the same keypress()/StatusReport body after every guess position under every combination of 0/1/2 days, hours, minutes, seconds of elapsed time; '
         'non-trivial = execution in which the keyboard thread ran between two main-loop points (not only before the first / after the last)')
-ASSUMPTIONS = ['between two scheduling points neither thread touches state the other writes; accesses inside one bytecode are atomic under the GIL',
+ASSUMPTIONS = ['locks: threading.Lock / RLock objects created by lib_guesser code are scheduler locks (acquire / release are scheduling points, a wait nobody can end is reported as a deadlock); other primitives (Condition, Event, ...) are not modelled and make the run fail loudly',
+               'between two scheduling points neither thread touches state the other writes; accesses inside one bytecode are atomic under the GIL',
                'input() behaviour under each stdin condition is modelled by the script alphabet (tty/open pipe = BLOCK, /dev/null or pipe at EOF = EOF, closed = ERR); a handful of real-subprocess confirmations are in the thorough tier',
                'every 10th execution and every failing one is re-run from its recorded choice list and must reproduce identical observations']
 
@@ -44,8 +45,10 @@ def the_spec(tied=False):
 def scripts(tier):
     base = [['BLOCK'], ['EOF'], ['ERR'], ['q'], [''], ['h'], ['S!'],
             ['', 'q'], ['', 'EOF'], ['h', 'q'], ['h', 'EOF'], ['S!', 'q'], ['', ''], ['', 'ERR'], ['h', 'h']]
+    # stderr failing at a later write of the status report (after the report has set up whatever it sets up)
+    base += [['S!2'], ['S!4'], ['S!9'], ['S!4', 'q']]
     if tier == 'thorough':
-        base += [['', '', 'q'], ['', 'h', 'EOF'], ['h', '', 'q'], ['', 'S!', 'q']]
+        base += [['', '', 'q'], ['', 'h', 'EOF'], ['h', '', 'q'], ['', 'S!', 'q']] + [['S!%d' % k] for k in (3, 5, 6, 7, 8, 10, 11, 12, 13)]
     return base
 
 
@@ -178,14 +181,16 @@ def run_shard(shard, tier, acc):
         case = dict(case0, choices=o.choices)
         fails = []
         out = o.run.stdout
-        if o.run.exc:
+        if o.run.exc and o.run.exc.startswith('Deadlock'):
+            fails.append(('deadlock', 'the generation loop can never continue (input script %r, %d guesses printed): %s' % (script, len(out), o.run.exc)))
+        elif o.run.exc:
             fails.append(('crash', 'generation loop raised %s' % o.run.exc.strip().splitlines()[-1]))
         elif o.exit_write is None and (o.q_dropped or ('q' in o.consumed and o.kb_natural_end and not o.thread_exc)):
             fails.append(('quit-request-dropped', 'the user typed q (answers consumed: %r) and the keyboard thread finished handling it, but the quit flag was never set: '
                           'the run emitted %d guesses and saved nothing' % (o.consumed, len(out))))
         elif o.exit_write is None:
             if out != U.stdout:
-                why = 'thread died with %s' % o.thread_exc if o.thread_exc else ('status print failed' if 'S!' in script else 'thread ended')
+                why = 'thread died with %s' % o.thread_exc if o.thread_exc else ('status print failed' if any(a.startswith('S!') for a in script) else 'thread ended')
                 fails.append(('cut-without-quit', 'no quit was requested (input script %r, %s) but the stream stops after %d of %d guesses'
                               % (script, why, len(out), len(U.stdout))))
         else:
